@@ -2101,16 +2101,35 @@ fn c19(case: &Case, ctx: &Ctx, rpt: &mut Report, rng: &mut Rng, stream: &ExprStr
                 let a = m.to_owned();
                 let borrowed: Vec<Option<String>> = (0..ncap + 3).map(|i| m.get(i).map(|s| s.to_string())).collect();
                 let to_owned: Vec<Option<String>> = (0..ncap + 3).map(|i| a.get(i).map(|s| s.to_string())).collect();
+                // Owning an owned value again, and re-matching the candidate path that the matched
+                // text hands back, are further steps of the same conversions (round 7: sequences).
+                let a2 = a.to_owned().into_owned().to_owned();
+                let again: Vec<Option<String>> = (0..ncap + 3).map(|i| a2.get(i).map(|s| s.to_string())).collect();
+                let back = a.to_candidate_path();
+                let rematched: Option<Vec<Option<String>>> = case
+                    .glob
+                    .matched(&back)
+                    .map(|m2| (0..ncap + 3).map(|i| m2.get(i).map(|s| s.to_string())).collect());
+                let complete = (m.complete().to_string(), a.complete().to_string());
                 let b = m.into_owned();
                 let into_owned: Vec<Option<String>> = (0..ncap + 3).map(|i| b.get(i).map(|s| s.to_string())).collect();
-                (borrowed, to_owned, into_owned)
+                (borrowed, to_owned, into_owned, again, rematched, complete)
             })
         });
-        if let Some(Some((b, t, i))) = res {
+        if let Some(Some((b, t, i, again, rematched, complete))) = res {
             rpt.evaluations += 1;
             rpt.bucket("owned-matched-text-compared");
             if b.iter().skip(1).any(|c| c.is_none()) {
                 rpt.bucket("owned-matched-text-with-non-participating-capture");
+            }
+            if b != again || rematched.as_ref() != Some(&b) || complete.0 != *p || complete.1 != *p {
+                rpt.disagreement(
+                    &ctx.known,
+                    "owned-matched-text-differs-from-borrowed",
+                    None,
+                    json!({"expr": clip(case.expr), "path": clip(p), "borrowed": b, "owned-again": again, "rematched-from-its-candidate-path": rematched, "complete": [complete.0, complete.1]}),
+                );
+                break;
             }
             if b != t || b != i {
                 rpt.disagreement(
@@ -2195,6 +2214,76 @@ fn c19(case: &Case, ctx: &Ctx, rpt: &mut Report, rng: &mut Rng, stream: &ExprStr
             }
         }
     }
+    // Sequences of conversions (round 7): two to four steps drawn at random, each applied to the
+    // result of the one before; the observations must still be those of the original glob.
+    for _ in 0..2 {
+        let steps = rng.range(2, 5);
+        let mut names: Vec<&'static str> = Vec::new();
+        let mut cur: Option<Glob<'static>> = guarded(|| case.glob.clone().into_owned());
+        for _ in 0..steps {
+            let g = match cur.take() {
+                Some(g) => g,
+                None => break,
+            };
+            let (name, next): (&'static str, Option<Glob<'static>>) = match rng.below(6) {
+                0 => ("clone", guarded(|| g.clone())),
+                1 => ("into_owned", guarded(|| g.into_owned())),
+                2 => ("display+from_str", guarded(|| g.to_string().parse::<Glob<'static>>().ok()).flatten()),
+                3 => (
+                    "display+new+into_owned",
+                    guarded(|| {
+                        let text = g.to_string();
+                        Glob::new(&text).ok().map(Glob::into_owned)
+                    })
+                    .flatten(),
+                ),
+                4 => (
+                    "display+try_from+into_owned",
+                    guarded(|| {
+                        let text = g.to_string();
+                        Glob::try_from(text.as_str()).ok().map(Glob::into_owned)
+                    })
+                    .flatten(),
+                ),
+                _ => (
+                    "clone-of-clone-dropped-first",
+                    guarded(|| {
+                        let c = g.clone();
+                        drop(g);
+                        c.clone()
+                    }),
+                ),
+            };
+            names.push(name);
+            cur = next;
+        }
+        match cur {
+            None => {
+                rpt.evaluations += 1;
+                rpt.disagreement(
+                    &ctx.known,
+                    "conversion-fails",
+                    None,
+                    json!({"expr": clip(case.expr), "route": names.join(" -> "), "display": clip(&display)}),
+                );
+            },
+            Some(g) => {
+                rpt.bucket("route:sequence");
+                if let (Some(a), Some(b)) = (observe(&g, &case.paths, ncap + 2), glob_extras(&g)) {
+                    rpt.evaluations += 1;
+                    let o = json!({"program": a, "glob": b});
+                    if o != base {
+                        rpt.disagreement(
+                            &ctx.known,
+                            "conversion-changes-behaviour",
+                            None,
+                            json!({"expr": clip(case.expr), "route": names.join(" -> "), "difference": first_difference(&base["program"], &o["program"], &case.paths), "glob_left": base["glob"], "glob_right": o["glob"]}),
+                        );
+                    }
+                }
+            },
+        }
+    }
     // Partition of an owned glob behaves as partition of the borrowed one.
     if let (Some(Some(owned)), Some((bp, bg))) = (
         routes.first().map(|r| r.1.clone()),
@@ -2211,6 +2300,27 @@ fn c19(case: &Case, ctx: &Ctx, rpt: &mut Report, rng: &mut Rng, stream: &ExprStr
                     None,
                     json!({"expr": clip(case.expr), "route": "into_owned+partition", "borrowed": [l[0], l[1]], "owned": [r[0], r[1]]}),
                 );
+            }
+            // ... and the owned postfix, owned once more and partitioned again, gives what the
+            // borrowed postfix gives when it is partitioned again (whether that is the postfix
+            // behind an empty prefix is C08's question, not this one's).
+            if let (Some(og), Some(bg)) = (og, bg) {
+                if let (Some((p2, g2)), Some((p1, g1))) = (
+                    guarded(|| og.clone().into_owned().partition()),
+                    guarded(|| bg.clone().partition()),
+                ) {
+                    rpt.evaluations += 1;
+                    let l = json!([p1.to_string_lossy(), g1.as_ref().map(|g| g.to_string()), g1.as_ref().and_then(|g| observe(g, &case.paths, 2))]);
+                    let r = json!([p2.to_string_lossy(), g2.as_ref().map(|g| g.to_string()), g2.as_ref().and_then(|g| observe(g, &case.paths, 2))]);
+                    if l != r {
+                        rpt.disagreement(
+                            &ctx.known,
+                            "conversion-changes-behaviour",
+                            None,
+                            json!({"expr": clip(case.expr), "route": "into_owned+partition -> into_owned+partition", "borrowed-postfix": [l[0], l[1]], "owned-postfix-partitioned-again": [r[0], r[1]]}),
+                        );
+                    }
+                }
             }
         }
     }
